@@ -632,25 +632,25 @@ func (e *FieldAccessExpr) execListAccess(idx int, left any) (any, error) {
 	switch lval := left.(type) {
 	case []any:
 		lvallen := len(lval)
-		if idx < lvallen {
+		if idx >= 0 && idx < lvallen {
 			have = true
 			fval = lval[idx]
 		}
 	case []string:
 		lvallen := len(lval)
-		if idx < lvallen {
+		if idx >= 0 && idx < lvallen {
 			have = true
 			fval = lval[idx]
 		}
 	case []int64:
 		lvallen := len(lval)
-		if idx < lvallen {
+		if idx >= 0 && idx < lvallen {
 			have = true
 			fval = lval[idx]
 		}
 	case []float64:
 		lvallen := len(lval)
-		if idx < lvallen {
+		if idx >= 0 && idx < lvallen {
 			have = true
 			fval = lval[idx]
 		}
